@@ -9,7 +9,7 @@ VAULT_TB = ("Model/Vault.lean is hand-written from x/vault/keeper/msg_server.go 
 VAULT_ASSUME = ["a rejected message leaves no writes (baseapp message atomicity; the harness delivers on a cache context written back only on success)",
                 "what a handler reads from other modules (ESM / breaker flags, oracle prices, accrued interest) is an input of the step, printed by the harness from the real chain state; the theorems hold for every value of these inputs",
                 "admissible product configuration (enforced at registration, x/asset/keeper/pairs_vault.go:153-165): fees in [0,1), debt floor >= 0, ceiling >= 0, positive asset decimals",
-                "the vault-side bookkeeping of second-generation auction settlement is modelled as the code does it (finding D13); what the auction does with bidders' coins and the penalty is C10's model; partial fills of an auction move only bidder and auction-custody coins (state adopted from the chain on those lines); emergency shutdown (x/esm begin-blocker: vault, stable-mint vault and collector redemption; MsgCollateralRedemption) is modelled at the ledger level (what the holder is paid out of the esm account is not); the redemption of a stable-mint vault leaves its record behind (finding D29) and the theorems over histories exclude that one step (NoEsmStable), with the exact resulting offsets as a theorem; the wind-down of first-generation auctions under emergency shutdown (dutch.go:517-640) is outside the vault model"]
+                "the vault-side bookkeeping of second-generation auction settlement is modelled as the code does it (finding D13); what the auction does with bidders' coins and the penalty is C10's model; partial fills of an auction move only bidder and auction-custody coins (state adopted from the chain on those lines); emergency shutdown (x/esm begin-blocker: vault, stable-mint vault and collector redemption; MsgCollateralRedemption) is modelled at the ledger level (what the holder is paid out of the esm account is not); the redemption of a stable-mint vault leaves its record behind (finding D29) and the theorems over histories exclude that one step (EsmRegular), with the exact resulting offsets as a theorem; the wind-down of first-generation auctions under emergency shutdown (dutch.go:517-640) is modelled in both branches (principal recovered = settle1; less collected = esmReturn1, which keeps every ledger equation but may re-create a vault below the debt floor, so it is excluded from the history theorems like esmStable and stated as a one-step theorem)"]
 
 PROP = dict(
     title="CDP vault custody and published totals",
@@ -19,7 +19,8 @@ PROP = dict(
                        "Comdex.C01.totals_minted_le", "Comdex.C01.totals_after_settlement", "Comdex.C01.totals_eq_settlement_counterexample",
                        "Comdex.C01.invG_always", "Comdex.C01.inv_always", "Comdex.C01.rejected_no_change",
                        "Comdex.C01.totals_eq_gen1_settlement_example", "Comdex.C01.custody_after_esm_stable",
-                       "Comdex.C01.esm_stable_counterexample", "Comdex.C01.esm_vault_example"],
+                       "Comdex.C01.esm_stable_counterexample", "Comdex.C01.esm_vault_example",
+                       "Comdex.C01.wind_down_return_keeps_ledger", "Comdex.C01.wind_down_return_example"],
     harness_tests=["TestC01"],
     monitors=["custody_eq", "count_eq", "totals_eq"],
     trusted_base=[KERNEL_TB, HARNESS_TB, DEC_TB, VAULT_TB],
